@@ -11,6 +11,13 @@ CHECKS = {
         design="5/C01",
     ),
 }
+CHECKS["C02"] = dict(
+    category="exploration",
+    technique="Hypothesis grammar-generated facet/vertex forms x all local entity indices x random inputs; differential test against the reference evaluator using the documented macro layout",
+    text="Generated ds/dS/dP forms on all cell types (prisms with both facet types), entity-dependent integrands, unrelated data/geometry on the two cells of an interior facet; every local entity index (sampled pairs beyond 12) is passed to the kernel and compared with the reference evaluated on that sub-entity. Sampling, not proof.",
+    note="Trusted: UFL restriction propagation/facet scaling/normals, basix reference topology/geometry. Permutation codes fixed to (0,0) (C03 covers the rest).",
+    design="5/C02",
+)
 PENDING = {}
 
 def main():
